@@ -4,6 +4,7 @@
 # failures; then stores /verif/seeded/<id>/.
 SRC=$1; ID=$2; PROP=$3; SKIP=$4
 HERE="$(cd "$(dirname "$0")/.." && pwd)"
+export OMP_NUM_THREADS=1 OPENBLAS_NUM_THREADS=1 MKL_NUM_THREADS=1 NUMEXPR_NUM_THREADS=1
 ROOT=$(mktemp -d /tmp/vp_seedverify_XXXXXX)
 WT=$ROOT/repo
 git -C /repo worktree add -q --detach $WT HEAD || exit 2
@@ -20,6 +21,7 @@ if [ -z "$SKIP" ]; then
   grep -E "^(FAILED|ERROR)" $ROOT/suite.log | sed 's/ - .*//' | sort > $ROOT/failed.txt
   NEW=$(comm -23 $ROOT/failed.txt $HERE/selftest/baseline_failed.txt | wc -l)
   SUITE="new_failures=$NEW ($(tail -1 $ROOT/suite.log))"
+  [ "$NEW" != "0" ] && { echo "new failures:"; comm -23 $ROOT/failed.txt $HERE/selftest/baseline_failed.txt; grep -E "Timeout|timeout" $ROOT/suite.log | head -3; }
 fi
 git checkout -q -- .
 RC2=$(run_demo restored)
